@@ -379,7 +379,71 @@ def projection_agrees(c):
 
 
 def case_size(c):
-    return sum(len(p["samples"] or []) + sum(len(s["stack"]) for s in (p["samples"] or [])) for p in (c["profs"] or [])) + len(c["mrows"] or [])
+    return (sum(len(p["samples"] or []) + sum(len(s["stack"]) for s in (p["samples"] or [])) + (p.get("pad", 0) + p.get("tagpad", 0)) // 1000
+                for p in (c["profs"] or [])) + len(c["mrows"] or []))
+
+
+def shrink(ck, c, budget=12):
+    """greedy reduction of a failing case: drop profiles, halves of the samples, single samples, halves of synthetic rows;
+    a candidate is kept when the harness + Coq still report it (spec result 2, model mismatch or statement judge).
+    At most [budget] evaluations; returns the smallest failing case seen (with its observations)."""
+    def fails(cand):
+        inp = os.path.join(ck.work, "shrink_in.jsonl")
+        outp = os.path.join(ck.work, "shrink_out.jsonl")
+        open(inp, "w").write(json.dumps(cand) + "\n")
+        rc, _ = ck.go_run("proftree", ["--cases", inp, "--out", outp])
+        if rc != 0:
+            return None
+        r = json.loads(open(outp).readline())
+        r["id"] = 1
+        templates, problems = attach_statements([r])
+        saved = dict(ck.extra)
+        for k in ("sql_judge_failed_cases", "diff_mismatch_cases", "hypothesis_fails_in_cases"):
+            ck.extra[k] = []
+        m, v, h, out = eval_cases(ck, "C16_shrink", [r], [], templates, False)
+        sq = list(ck.extra.get("sql_judge_failed_cases", []))
+        ck.extra.clear()
+        ck.extra.update(saved)
+        if m is None:
+            return None
+        return r if (m or v.get(1) == 2 or sq or problems) else None
+
+    best, used = c, 0
+    progress = True
+    while progress and used < budget:
+        progress = False
+        cands = []
+        base = slim(best)
+        profs = base.get("profs") or []
+        if len(profs) > 1:
+            for i in range(len(profs)):
+                d = json.loads(json.dumps(base))
+                del d["profs"][i]
+                cands.append(d)
+        for i, p in enumerate(profs):
+            n = len(p.get("samples") or [])
+            cuts = [(0, n // 2), (n // 2, n)] if n > 2 else [(j, j + 1) for j in range(n)] if n > 1 else []
+            for a, b in cuts:
+                d = json.loads(json.dumps(base))
+                d["profs"][i]["samples"] = d["profs"][i]["samples"][:a] + d["profs"][i]["samples"][b:]
+                cands.append(d)
+        if base.get("kind") == "rows" and len(base.get("mrows") or []) > 1:
+            n = len(base["mrows"])
+            for a, b in ((0, n // 2), (n // 2, n)):
+                d = json.loads(json.dumps(base))
+                d["mrows"] = d["mrows"][:a] + d["mrows"][b:]
+                cands.append(d)
+        for d in cands:
+            if used >= budget:
+                break
+            used += 1
+            r = fails(d)
+            if r is not None:
+                r["class"] = best.get("class")
+                best, progress = r, True
+                break
+    ck.extra["shrink_evaluations"] = used
+    return best
 
 
 def has_empty_stack(c):
@@ -553,7 +617,7 @@ def run_corr(ck):
     ck.obligation("spec oracles (stored once, per-node conservation, root sum, merged = sum, levels nest) accept every observation",
                   not viol, "violating case ids: %s" % viol[:10])
     if viol:
-        worst = min((byid[i] for i in viol), key=case_size)
+        worst = shrink(ck, min((byid[i] for i in viol), key=case_size))
         ck.violation({"property": "C16", "kind": "observed rows/tree/levels violate the property", "case": slim(worst),
                       "explanation": "case_spec (coq/model/ProfCase.v) rejects the implementation's observations for this input",
                       "replay": "write the case as one JSON line and run: proftree --cases <file>"})
